@@ -10,7 +10,7 @@
 EXTENDS Naturals, Sequences, FiniteSets, TLC
 CONSTANT MaxDev
 \* total size of the signed attributes incl. one additional attribute (long-form DER lengths from 128)
-Sizes == {"plain", "s120", "s127", "s128", "s129", "s255", "s256", "s257", "s300"}
+Sizes == {"plain", "s120", "s127", "s128", "s129", "s255", "s256", "s257", "s300", "x2v"}      \* x2v: an extra attribute with two values
 FacetValues == [
     attrs   |-> {"ok", "missing_ct", "missing_md", "missing_st", "dup_ct", "dup_md", "dup_st"},
     digest  |-> {"ok", "bad", "short", "long", "empty"},    \* wrong octet; a proper prefix; the digest plus one octet; no octets
